@@ -772,7 +772,27 @@ func C13Drain(maxDepth int) func(x *Explorer, depth int, path []string, root str
 			x.CountTransition()
 			if br.OK() {
 				Clauses.Inc("drain_orders")
+				// the leveraged-LP claim names position ids: a position that THIS block's begin-block sweep closed
+				// (its rewards were paid out with the close) cannot be claimed for any more — not a failed payout
+				llpGone := false
+				if len(ids) > 0 {
+					left := map[uint64]bool{}
+					for _, ps := range w.LLPsOf("t1") {
+						left[ps.Id] = true
+					}
+					for _, id := range ids {
+						if !left[id] {
+							llpGone = true
+						}
+					}
+				}
 				for i, ti := range plan.TxIndex {
+					if llpGone && len(plan.Txs[i].Msgs) == 1 {
+						if _, isLlp := plan.Txs[i].Msgs[0].(*llptypes.MsgClaimRewards); isLlp {
+							Clauses.Inc("drain_llp_claim_of_position_closed_in_the_same_block_not_judged")
+							continue
+						}
+					}
 					if r := br.Res.TxResults[ti]; r.Code != 0 {
 						log := r.Log
 						if len(log) > 160 {
